@@ -18,10 +18,17 @@
   `1st`, or named `℘` — an identifier rustc accepts whose first character is not `char::is_alphabetic`:
   recorded as a known finding), `C04_text_depth_needed` (data nested 128 levels: the value path works,
   the text path hits the recursion limit, as C03 documents), `C04_text_float_window_needed`.
+  Floats that are not exactly readable (LexprModel/Proofs/FloatApproxSerde.lean, F32Stable.lean,
+  FloatApproxSerde32.lean; imported here): `C04_text_approx_all`, `C04_text_identity_approx_all` — through text,
+  for the whole type universe, f64 leaves come back within the C05 accuracy and **f32 leaves come back exactly**
+  (`roundToF32_stable`: a double within 2^-50 of a widened f32 narrows back to that f32 — subnormals, ±0 and
+  f32::MAX included; `f32_max_witness`: the default build reads the text of f32::MAX one ulp high, and narrowing
+  still gives f32::MAX).
 -/
 import LexprModel.Proofs.SerdeRT
 import LexprModel.Proofs.SerdeText
 import LexprModel.Proofs.FloatApproxSerde
+import LexprModel.Proofs.FloatApproxSerde32
 namespace Lexpr
 namespace Serde
 
